@@ -175,4 +175,19 @@ theorem C18_cells_rejected_mutator_generated (r : CellRec) (a : Aid) (err : Py.E
     by_cases h : a ∈ r._agents <;> simp [h]
     intro h'; exact h'.symm
 
+/-- what the effect list of the generated `move_to` means in the model: every entry is one run of the `cell` setter of agent
+    `a` (of class `k`) with that cell; a setter that raised ends the list -/
+def interpSetCell (sp : Space) (k : AKind) (a : Aid) (s : State) (es : List Cid) : State × Res :=
+  es.foldl (fun acc c => if acc.2 = .ok then setCell sp acc.1 k a (some c) else acc) (s, .ok)
+
+/-- `BasicMovement.move_to` as generated = the model's `moveTo` step: exactly one run of the agent's `cell` setter, with exactly
+    the given cell.  Guards of the call site, not of the code: the agent exists and its class has the mixin (`CellAgent`,
+    `Grid2DMovingAgent`; a `FixedAgent` has no `move_to`: AttributeError in the model and in Python), and `space[c]` was a cell. -/
+theorem C06_gen_move_to_eq_model (sp : Space) (s : State) (a : Aid) (c : Cid) (k : AKind) (r : MoverRec)
+    (hk : s.kinds[a]? = some k) (hm : k ≠ .fixed) (hc : c ∈ sp.cells) :
+    interpSetCell sp k a s (move_to r c) = step sp s (.moveTo a c) := by
+  have h : move_to r c = [c] := by simp [move_to]
+  rw [h]
+  cases k <;> simp_all [interpSetCell, step]
+
 end Mesa.Cells
